@@ -243,6 +243,8 @@ pub enum ErrKind {
 
 impl ErrKind {
     pub fn of(e: &PasetoError) -> ErrKind {
+        // every error that comes out of the library is also rendered (Display, Debug, source)
+        let _ = (e.to_string(), format!("{e:?}"), std::error::Error::source(e).map(|s| s.to_string()));
         match e {
             PasetoError::Base64DecodeError => ErrKind::Base64,
             PasetoError::InvalidKey => ErrKind::InvalidKey,
@@ -518,6 +520,10 @@ impl ClaimLeaves for RegisteredClaims {
             VSpec::TimeNowLeeway(s, ns) => Box::new(Time::valid_now().with_leeway(Duration::new(*s, *ns))),
             VSpec::TimeAtLeeway(t, s, ns) => Box::new(Time::valid_at(ts(*t)).with_leeway(Duration::new(*s, *ns))),
             VSpec::HasExpiry => Box::new(HasExpiry),
+            // the expected string as an owned String or as a borrowed &'static str, by its length parity
+            VSpec::Iss(s) if s.len() % 2 == 1 => Box::new(FromIssuer(&*Box::leak(s.clone().into_boxed_str()))),
+            VSpec::Sub(s) if s.len() % 2 == 1 => Box::new(ForSubject(&*Box::leak(s.clone().into_boxed_str()))),
+            VSpec::Aud(s) if s.len() % 2 == 1 => Box::new(ForAudience(&*Box::leak(s.clone().into_boxed_str()))),
             VSpec::Iss(s) => Box::new(FromIssuer(s.clone())),
             VSpec::Sub(s) => Box::new(ForSubject(s.clone())),
             VSpec::Aud(s) => Box::new(ForAudience(s.clone())),
@@ -1295,8 +1301,20 @@ impl<V: Full> Backend for B<V> {
             let kt = KeyText::<V, K>::from_str(s)?;
             let shown = kt.to_string();
             let again = KeyText::<V, K>::from_raw_bytes(kt.as_raw_bytes());
-            if again != kt || again.cmp(&kt) != std::cmp::Ordering::Equal {
+            if again != kt || again.cmp(&kt) != std::cmp::Ordering::Equal || again.partial_cmp(&kt) != Some(std::cmp::Ordering::Equal) {
                 return harness_err("KeyText raw round trip differs");
+            }
+            {
+                use std::hash::{BuildHasher, Hash, Hasher};
+                let bh = std::collections::hash_map::RandomState::new();
+                let hv = |x: &KeyText<V, K>| {
+                    let mut st = bh.build_hasher();
+                    x.hash(&mut st);
+                    st.finish()
+                };
+                if hv(&again) != hv(&kt) {
+                    return harness_err("equal KeyTexts hash differently");
+                }
             }
             // `KeyId: From<&KeyText>` is public API on the unvalidated text
             let id: KeyId<V, K> = KeyId::from(&kt);
@@ -1455,6 +1473,22 @@ pub fn decode_reg(bytes: &[u8]) -> Out<RegSpec> {
     guard(|| {
         let c = <RegisteredClaims as paseto_core::encodings::Payload>::decode(bytes).map_err(PasetoError::PayloadError)?;
         Ok(RegSpec::from_claims(&c))
+    })
+}
+
+/// the same claims through the generic wrapper `Json<RegisteredClaims>` (serde derive path), as payload
+pub fn encode_reg_via_json(claims: &RegSpec) -> Out<Vec<u8>> {
+    guard(|| {
+        let mut out = Vec::new();
+        paseto_core::encodings::Payload::encode(Json(claims.to_claims()), &mut out).map_err(PasetoError::PayloadError)?;
+        Ok(out)
+    })
+}
+
+pub fn decode_reg_via_json(bytes: &[u8]) -> Out<RegSpec> {
+    guard(|| {
+        let c = <Json<RegisteredClaims> as paseto_core::encodings::Payload>::decode(bytes).map_err(PasetoError::PayloadError)?;
+        Ok(RegSpec::from_claims(&c.0))
     })
 }
 
